@@ -77,6 +77,7 @@ type Cluster struct {
 	stats   *Stats
 	digest  uint64
 	viol    *Violation
+	foreign *Violation // first violation of a property other than the target
 	// NewFlights is reset at the beginning of every action and lists what the
 	// action put on the wire (the generator draws fates for these).
 	NewFlights []*Flight
@@ -396,7 +397,7 @@ func (c *Cluster) Do(a Action) bool {
 	c.step++
 	c.trace = append(c.trace, a)
 	c.stats.Actions++
-	ok := c.exec(a)
+	ok := c.safeExec(a)
 	if ok {
 		c.stats.Applicable++
 		c.stats.ByKind[a.K]++
@@ -410,6 +411,18 @@ func (c *Cluster) Do(a Action) bool {
 	c.mixDigest(uint64(a.K), a.N, a.M, uint64(int64(a.I)), uint64(int64(a.J)), okv)
 	c.chk.afterAction(a, ok)
 	return ok
+}
+
+// safeExec turns a panic inside the simulator itself into a tool error (exit
+// status 2), never into a violation.
+func (c *Cluster) safeExec(a Action) (ok bool) {
+	defer func() {
+		if r := recover(); r != nil {
+			c.chk.toolError(fmt.Sprintf("simulator panic in %s: %v\n%s", a, r, debug.Stack()))
+			ok = true
+		}
+	}()
+	return c.exec(a)
 }
 
 func (c *Cluster) exec(a Action) bool {
@@ -1044,7 +1057,24 @@ func (c *Cluster) doConfChange(n *Node, a Action) bool {
 	}
 	cc := buildCC(a.CC, a.I)
 	c.chk.onConfProposeCall(n, a.I, cc)
-	err := n.call("ProposeConfChange", nil, func() error { return n.rn.ProposeConfChange(cc) })
+	if a.CC2 == nil {
+		err := n.call("ProposeConfChange", nil, func() error { return n.rn.ProposeConfChange(cc) })
+		c.chk.onConfProposeReturn(n, a.I, err)
+		return true
+	}
+	// two changes in one proposal message (a client batching its requests)
+	cc2 := buildCC(a.CC2, a.J)
+	c.chk.onConfProposeCall(n, a.J, cc2)
+	m := &pb.Message{Type: pb.MsgProp.Enum(), From: new(n.id)}
+	for _, x := range []pb.ConfChangeI{cc, cc2} {
+		typ, data, err := pb.MarshalConfChange(x)
+		if err != nil {
+			c.chk.toolError("marshal conf change: " + err.Error())
+			return true
+		}
+		m.Entries = append(m.Entries, &pb.Entry{Type: typ.Enum(), Data: data})
+	}
+	err := n.call("ProposeConfChange", m, func() error { return n.rn.Step(m) })
 	c.chk.onConfProposeReturn(n, a.I, err)
 	return true
 }
